@@ -115,8 +115,8 @@ def rgs(pattern):
         out.append(m[k])
     return ''.join(out)
 
-def bind_part(sub, styles):
-    patterns = [p for n in range(1, 5) for p in itertools.product(range(3), repeat=n)]
+def bind_part(sub, styles, maxocc=4):
+    patterns = [p for n in range(1, maxocc + 1) for p in itertools.product(range(3), repeat=n)]
     for pname in PROVIDERS:
         for style in styles:
             for tname in TEMPLATES:
@@ -313,7 +313,7 @@ OPS = {'startswith': ('x.s.startswith({0})', lambda s, p: s.startswith(p)),
        'in': ('{0} in x.s', lambda s, p: p in s),
        'not in': ('{0} not in x.s', lambda s, p: p not in s)}
 
-def like_db():
+def like_db(maxlen=3):
     from pony import orm
     db = orm.Database()
     class S(db.Entity):
@@ -325,7 +325,7 @@ def like_db():
         t = orm.Optional(str)
     db.bind('sqlite', ':memory:')
     db.generate_mapping(create_tables=True)
-    strs = lib.strings_over(LIKE_ALPHABET, 3)
+    strs = lib.strings_over(LIKE_ALPHABET, maxlen)
     with orm.db_session:
         con = db.get_connection()
         con.executemany('insert into S (id, s) values (?, ?)', list(enumerate(strs)))
@@ -333,9 +333,9 @@ def like_db():
                         [(i * len(strs) + j, s, t) for i, s in enumerate(strs) for j, t in enumerate(strs)])
     return db, strs
 
-def like_part(sub, opname):
+def like_part(sub, opname, maxlen=3):
     from pony.orm import db_session, select
-    db, strs = like_db()
+    db, strs = like_db(maxlen)
     S, P = db.S, db.P
     n = len(strs)
     tmpl, pyf = OPS[opname]
@@ -562,9 +562,9 @@ def quote_part(sub, names):
 def worker(job):
     sub = core.Sub()
     kind = job[0]
-    if kind == 'bind': bind_part(sub, job[1])
+    if kind == 'bind': bind_part(sub, job[1], job[2])
     elif kind == 'lit': lit_part(sub, job[1], job[2])
-    elif kind == 'like': like_part(sub, job[1])
+    elif kind == 'like': like_part(sub, job[1], job[2])
     elif kind == 'ident': ident_part(sub, job[1], job[2])
     elif kind == 'quote': quote_part(sub, job[1])
     return sub.dump()
@@ -573,13 +573,14 @@ def run(ctx):
     from vf import stubs
     stubs.install_all()
     import pony.orm
-    strs = lib.strings_over(STR_ALPHABET, 3)
+    L = 3 if ctx.quick else 4
+    strs = lib.strings_over(STR_ALPHABET, L)
     idn = [s for s in lib.strings_over(IDENT_ALPHABET, 2 if ctx.quick else 3) if s]
-    jobs = [('bind', [st]) for st in STYLES]
-    nchunk = 6
+    jobs = [('bind', [st], L + 1) for st in STYLES]
+    nchunk = 6 if ctx.quick else 24
     for cn in ('Value', 'SQLiteValue', 'PGValue', 'MySQLValue'):
         for k in range(nchunk): jobs.append(('lit', strs[k::nchunk] if k else [strs[0]] + strs[nchunk::nchunk], [cn]))
-    for op in OPS: jobs.append(('like', op))
+    for op in OPS: jobs.append(('like', op, L))
     for pos in POSITIONS:
         per = 2 if ctx.quick else 6
         for k in range(per): jobs.append(('ident', pos, idn[k::per]))
@@ -596,7 +597,7 @@ def run(ctx):
     ctx.assume('PEP 249 binder model vf.engines.dm.bind_placeholders: format/pyformat drivers %-interpolate the statement; placeholders inside quoted literals are not parameters for qmark/numeric/named drivers')
     ctx.assume('lexical models in vf/props/_c06_lib.py (model-based): standard SQL string literals treat only two single quotes as special (checked against the SQLite engine on every string); MySQL with default sql_mode additionally treats backslash as escape character; PostgreSQL X\'..\' is a bit string; Oracle quoted identifiers cannot contain a double quote')
     ctx.assume('SQLite date/time literals are compared with what the SQLite provider\'s own converter binds for the same value as a parameter')
-    ctx.cov['identifier_name_length'] = 2 if ctx.quick else 3
+    ctx.cov['bounds'] = dict(identifier_name_length=2 if ctx.quick else 3, literal_string_length=L, like_string_length=L, parameter_occurrences=L + 1)
     return dict(evaluations=c.get('evaluations', 0), distinct_nontrivial=c.get('distinct_nontrivial', 0),
                 rule='bind: (builder, style, template, occurrence pattern), non-trivial = a key repeats or keys are out of order; '
                      'literal: (value class, style, value), non-trivial = non-string or string containing a quote/backslash/percent/newline; '
@@ -616,7 +617,7 @@ def replay(ctx, case):
         return ok
     if part == 'literal':
         ok = True
-        values = dict((repr(v), v) for v in lib.strings_over(STR_ALPHABET, 3) + other_values())
+        values = dict((repr(v), v) for v in lib.strings_over(STR_ALPHABET, 4) + other_values())
         for rv in (case['value'], case['minimal']):
             r = lit_check(case['value_class'], case['style'], values[rv])
             print(case['value_class'], case['style'], rv, '->', 'ok' if r is None else json.dumps(r, default=repr, ensure_ascii=False)[:500])
@@ -624,7 +625,7 @@ def replay(ctx, case):
         return ok
     if part == 'like':
         from pony.orm import db_session, select
-        db, strs = like_db()
+        db, strs = like_db(max(3, len(case['pattern']), len(case['subject'])))
         tmpl, pyf = OPS[case['op']]
         ok = True
         for p, s in ((case['pattern'], case['subject']), (case['minimal_pattern'], case['minimal_subject'])):
